@@ -48,6 +48,11 @@ def generate(rng: random.Random, tier: str):
             n = rng.choice([9, 11])
             cases.append({'kind': 'slice', 'shape': [n, n, n] if ang != 180.0 else [n, rng.choice([7, 8, 9]), rng.choice([6, 9])], 'profile': rng.choice(['smoothed', 'gauss', 'rect']),
                           'fwhm': 1.0, 'rotation': 'axis', 'axis_spec': [ax, ang], 'shift': rng.choice([0.0, 1.0]), 'seed': rng.randrange(1 << 30)})
+    # batch dimensions that broadcast across each other: profiles (2, 1) x shifts (3,), grids (2, 1) x images (1, 3)
+    for _ in range(20 if thorough else 4):
+        cases.append({'kind': 'slicebatch', 'n': rng.randint(5, 8), 'pshape': rng.choice([[2, 1], [2, 1], [3, 1], [1, 2]]), 'nshift': rng.choice([2, 3]), 'seed': rng.randrange(1 << 30)})
+        cases.append({'kind': 'gridcross', 'dim': rng.choice([2, 2, 3]), 'gb': rng.choice([[2, 1], [3, 1]]), 'xb': rng.choice([[1, 3], [1, 2], [2, 3]]), 'complex': rng.random() < 0.5,
+                      'mode': rng.choice(['bilinear', 'nearest']), 'seed': rng.randrange(1 << 30)})
     # slices whose support partly leaves the volume along the normal (large shift): the row sum is the fraction of the weights in view
     for _ in range(40 if thorough else 8):
         n = rng.randint(5, 9)
@@ -379,7 +384,87 @@ def run_edge(case, drv) -> Outcome:
                    sample={**case, 'w_half': w_half, 'value': got})
 
 
+def run_slicebatch(case, drv) -> Outcome:
+    """slice profiles and shifts with batch shapes that broadcast across each other: slice [i, j] of the batched operator is the slice of
+    the operator built from profile i and shift j alone"""
+    import mrpro
+    import numpy as np
+    from mrpro.data import SpatialDimension
+    from mrpro.utils.slice_profiles import SliceGaussian, SliceSmoothedRectangular
+
+    rng = random.Random(case['seed'])
+    n = case['n']
+    shape = [n, n, n]
+    pshape = case['pshape']
+    profs = [SliceGaussian(1.0 + 0.75 * k) if k % 2 == 0 else SliceSmoothedRectangular(1.0 + k, 0.5) for k in range(pshape[0] * pshape[1])]
+    parr = np.array(profs, dtype=object).reshape(pshape)
+    nshift = case['nshift'] if pshape[1] == 1 else pshape[1]
+    shifts = torch.tensor([rng.choice([-1.0, 0.0, 0.5, 1.0, 1.5]) for _ in range(nshift)])
+    cfg = f'volume {shape} profiles of batch shape {pshape} shifts {shifts.tolist()}'
+    st, op = call(lambda: mrpro.operators.SliceProjectionOp(SpatialDimension(*shape), slice_rotation=None, slice_shift=shifts, slice_profile=parr))
+    if st != 'ok':
+        return Outcome(key=('slicebatch-ctor', cfg), branches=['slicebatch:raises'], sample=case)  # a batch layout the operator refuses is not a wrong result
+    gen = torch.Generator().manual_seed(case['seed'])
+    V = torch.randn(shape, generator=gen)
+    (y,) = op(V)
+    viol = None
+    bshape = list(torch.broadcast_shapes(tuple(pshape), (nshift,)))
+    if list(y.shape[:len(bshape)]) != bshape:
+        viol = {'signature': 'slice:batch-shape', 'what': f'{cfg}: output batch shape {list(y.shape)} expected to start with {bshape}'}
+    else:
+        for i in range(bshape[0]):
+            for j in range(bshape[1]):
+                pi = parr[i if pshape[0] > 1 else 0, j if pshape[1] > 1 else 0]
+                single = mrpro.operators.SliceProjectionOp(SpatialDimension(*shape), slice_rotation=None, slice_shift=float(shifts[j]), slice_profile=pi)
+                (ys,) = single(V)
+                dev = float((y[i, j].reshape(-1) - ys.reshape(-1)).abs().nan_to_num(nan=float('inf')).max())
+                if dev > 1e-4 * float(V.abs().max()):
+                    viol = viol or {'signature': 'slice:batch-pairing', 'what': f'{cfg}: slice [{i}, {j}] of the batched operator differs from the operator built from profile '
+                                                                              f'{i if pshape[0] > 1 else j} and shift {j} alone (max dev {dev:.3g})'}
+    return Outcome(key=('slicebatch', n, tuple(pshape), nshift), viol=viol, branches=[f'slicebatch:{pshape}'], sample=case)
+
+
+def run_gridcross(case, drv) -> Outcome:
+    """grid batch (g, 1) against image batch (1, m) / (g, m): result [i, j] is image j sampled with grid i"""
+    import mrpro
+    from mrpro.data import SpatialDimension
+
+    rng = random.Random(case['seed'])
+    dim = case['dim']
+    ishape = [rng.randint(2, 4) for _ in range(dim)]
+    oshape = [rng.randint(1, 3) for _ in range(dim)]
+    gb, xb = case['gb'], case['xb']
+    grid = torch.tensor([rng.randint(-8, 8) / 8 for _ in range(gb[0] * math.prod(oshape) * dim)], dtype=torch.float64).reshape(gb[0], 1, *oshape, dim)
+    chans = 2
+    xr = torch.tensor([rng.randint(-8, 8) for _ in range(xb[0] * xb[1] * chans * math.prod(ishape))], dtype=torch.float64).reshape(*xb, chans, *ishape)
+    x = torch.complex(xr, xr.flip(-1) * 0.5 + 1) if case['complex'] else xr
+    if xb[0] not in (1, gb[0]):
+        x = x[:1]
+    sd = SpatialDimension(*(([1] if dim == 2 else []) + ishape))
+    cfg = f'{dim}D {case["mode"]} grid batch {list(grid.shape[:2])} image batch {list(x.shape[:2])} {"complex" if case["complex"] else "real"} in {ishape} out {oshape}'
+    st, y = call(lambda: mrpro.operators.GridSamplingOp(grid, sd, interpolation_mode=case['mode'])(x)[0])
+    if st != 'ok':
+        return Outcome(key=('gridcross-raises', cfg), branches=['gridcross:raises'], sample=case)
+    viol = None
+    want_b = [gb[0], x.shape[1]]
+    if list(y.shape[:2]) != want_b:
+        viol = {'signature': 'grid:cross-shape', 'what': f'{cfg}: output batch shape {list(y.shape[:2])}, expected {want_b}'}
+    else:
+        for i in range(want_b[0]):
+            for j in range(want_b[1]):
+                xi = x[i if x.shape[0] > 1 else 0, j][None]
+                (single,) = mrpro.operators.GridSamplingOp(grid[i], sd, interpolation_mode=case['mode'])(xi)
+                dev = float((y[i, j] - single[0]).abs().nan_to_num(nan=float('inf')).max())
+                if dev > 1e-9:
+                    viol = viol or {'signature': 'grid:cross-pairing', 'what': f'{cfg}: result [{i}, {j}] is not image {j} sampled with grid {i} (max dev {dev:.3g} from the non-batched operator)'}
+    return Outcome(key=('gridcross', dim, tuple(gb), tuple(x.shape[:2]), case['mode'], case['complex']), viol=viol, branches=[f'gridcross:{gb}x{list(x.shape[:2])}'], sample=case)
+
+
 def run(case, drv) -> Outcome:
+    if case['kind'] == 'slicebatch':
+        return run_slicebatch(case, drv)
+    if case['kind'] == 'gridcross':
+        return run_gridcross(case, drv)
     if case['kind'] == 'edge':
         return run_edge(case, drv)
     return run_slice(case, drv) if case['kind'] == 'slice' else run_grid(case, drv)
